@@ -88,6 +88,15 @@ def placement64(fen):
 
 
 TARGETED = [
+    # in check, and the only legal replies are interposing pawn DOUBLE steps (a mate test that tries only the single
+    # step calls these mate); also leaves of short searches from the positions one move earlier
+    "8/6p1/R7/R6k/8/6K1/8/8 b - - 0 1",
+    "8/8/6k1/8/r6K/r7/6P1/8 w - - 0 1",
+    "8/6p1/R7/7k/R7/6K1/8/8 w - - 0 1",
+    "k7/2p1p3/3p3B/5Q2/7p/8/K7/8 w - - 0 1",
+    "8/1pp2pp1/k7/8/1Q1p4/8/4P3/B2K4 w - - 0 1",
+    "7k/8/8/8/1q6/8/3P4/4K3 w - - 0 1",
+    "4k3/3p4/8/1Q6/8/8/8/7K b - - 0 1",
     # en-passant capture that would expose the king along the rank (illegal ep)
     "8/8/8/KPp4r/8/8/8/7k w - c6 0 1",
     "7k/8/8/8/R4pPk/8/8/K7 b - g3 0 1".replace("7k/8", "8/8"),
